@@ -1,17 +1,16 @@
 CONSTANTS
   Server = {1, 2, 3}
   Campaigners = {1, 2, 3}
-  MaxTerm = 4
-  MaxProposals = 3
-  MaxCrashes = 2
-  MaxDrops = 2
-  MaxDups = 1
-  MaxHeartbeats = 2
-  MaxLog = 8
-  MaxNet = 8
+  MaxTerm = 1000000
+  MaxProposals = 1000000
+  MaxCrashes = 1000000
+  MaxDrops = 1000000
+  MaxDups = 1000000
+  MaxHeartbeats = 1000000
+  MaxLog = 1000000
+  MaxNet = 1000000
   MaxEnts = 1
   LossySend = FALSE
-  SimDepth = 40
   W_CommitAnyTerm = FALSE
   W_VoteIgnoreVoted = FALSE
   W_VoteIgnoreLog = FALSE
@@ -21,15 +20,15 @@ CONSTANTS
   W_QuorumMinusOne = FALSE
   PreVote = TRUE
   W_PreVoteRespCountsAsVote = FALSE
-  ConfChange = FALSE
-  InitVoters = {1, 2, 3}
+  ConfChange = TRUE
+  InitVoters = {1, 2}
   AddVoters = {}
   RemoveVoters = {}
-  MaxConfChanges = 0
-  MaxConfRefusals = 0
+  MaxConfChanges = 1000000
+  MaxConfRefusals = 1000000
   W_ConfChangeNoPendingCheck = FALSE
   W_AddedVoterCaughtUp = FALSE
-INIT Init
-NEXT Next
-CONSTRAINT NetBound
-INVARIANTS ElectionSafety LogMatching StateMachineSafety LeaderCompleteness CommitWithinLog PersistedMatchesVolatile MatchSound EmitSim
+INIT TraceInit
+NEXT TraceNext
+POSTCONDITION TracePost
+INVARIANTS ElectionSafety LogMatching StateMachineSafety LeaderCompleteness
